@@ -46,7 +46,7 @@ Served == Mixed \cup Tampered
 
 FileSLogStart ==
     /\ NextSrv # 0
-    /\ \E rec \in Served, c \in {k \in CliIds : cl[k].st # "none"}, cid \in SrvCids :
+    /\ \E rec \in Served, c \in {k \in CliIds : HasReq(k)}, cid \in SrvCids :
          SLogStart(NextSrv, 1, rec, cl[c].req, cid, NoneV, NoneV, NoneV, 300 + NextSrv, FALSE)
 
 FileFree ==
